@@ -356,6 +356,50 @@ theorem C20_trust_history (sha : Content → Sum) (h : List Ev) (st : Step) (c :
   rw [reachEv_eq, reachFrom_append, ← reachEv_eq]
   exact (trustStep sha _ st).ran_is_approved c hr
 
+/-! ### A real failure between the writes: the file-size limit
+
+The harness also runs the binary under `ulimit -f 1`: the checksum, timestamp and location files are
+written, the write of the (longer) `.yaml` fails like on a full disk.  Such an invocation is, in the
+model, `Pre.crash st 3` followed by `Pre.damage` (`limitedPre`) — so everything proved about histories
+of `Ev` is proved about histories with size-limited invocations (`LEv`). -/
+
+theorem reachFrom_pres (sha) (ps : List Pre) (t : List Ev) : ∀ s,
+    reachFrom sha s (ps.map .pre ++ t) = reachFrom sha (ps.foldl (applyPre sha) s) t := by
+  induction ps with
+  | nil => intro s; rfl
+  | cons p ps ih => intro s; simp only [List.map_cons, List.cons_append, reachFrom, after, List.foldl_cons]; exact ih _
+
+/-- a history with size-limited invocations ends in the state the history of invocations, crashes and
+damage it amounts to (`expandL`) ends in -/
+theorem stateL_expand (sha) (h : List LEv) : ∀ s,
+    stateL false sha s h = reachFrom sha s (expandL false sha s h) := by
+  induction h with
+  | nil => intro s; rfl
+  | cons e rest ih =>
+    intro s
+    cases e with
+    | ev e =>
+      cases e with
+      | step st => simp only [stateL, expandL, reachFrom, after, invoke]; exact ih _
+      | pre p => simp only [stateL, expandL, reachFrom, after]; exact ih _
+    | limited st =>
+      simp only [stateL, expandL]
+      cases limitedPre sha s st with
+      | some ps => simp only; rw [reachFrom_pres]; exact ih _
+      | none => simp only [reachFrom, after, invoke]; exact ih _
+
+/-- hence `C20_trust` after every history with size-limited invocations -/
+theorem C20_trust_limited (sha : Content → Sum) (h : List LEv) (st : Step) :
+    TrustStep sha (stateL false sha RState.init h) st := trustStep sha _ st
+
+/-- … and every stored checksum of such a history was approved by an invocation of the history it
+amounts to (the one whose `.yaml` write failed included) -/
+theorem C20_sum_approved_limited (sha : Content → Sum) (h : List LEv) (u : Nat) (x : Sum)
+    (hx : ((stateL false sha RState.init h).ent u).sum = some x) :
+    ∃ h1 ev h2, expandL false sha RState.init h = h1 ++ ev :: h2 ∧ ApprovesEv sha (reachEv sha h1) ev u x := by
+  rw [stateL_expand, ← reachEv_eq] at hx
+  exact C20_sum_approved sha _ u x hx
+
 /-- the rule before fix R8-3 (cached bytes used without recomputing their checksum) hands on
 content whose checksum is not the stored one: after a crash between `WriteChecksum` and `Write`
 (`.checksum` of the approved new version 2, `.yaml` still version 1), `--offline` runs version 1 -/
@@ -863,6 +907,15 @@ example : ((reachEv id [.step stGet, .pre (.crash stGet2 1)]).ent 0).content = s
 -- the killed invocation is the one that approved checksum 2 (`C20_sum_approved`)
 example : ApprovesEv id (reachEv id [.step stGet]) (.pre (.crash stGet2 1)) 0 2 :=
   ⟨rfl, by decide, by decide, ⟨2, by decide, rfl⟩, by decide, by decide⟩
+
+-- a size-limited download of version 2 after version 1: exit 1, `.checksum` = 2, `.yaml` = garbage;
+-- then `--offline`: 106; online: version 2 without a prompt
+example : (observeL false id 1 RState.init
+      [.ev (.step stGet), .limited stGet2, .ev (.step stOffline), .ev (.step stChanged)]).map
+    (fun o => (o.1, o.2.map (fun e => (e.content, e.sum))))
+    = [(.run 1, [(some 1, some 1)]), (.error 1, [(some 0, some 2)]), (.error 106, [(some 0, some 2)]),
+       (.run 2, [(some 2, some 2)])] := by decide
+example : limitedPre id (reach id [stGet]) stGet2 = some [.crash stGet2 3, .damage 0 (some 0)] := by decide
 
 -- **redirects.**  URL 6 is https; its server redirects to the plain-http URL 13
 private def url6 : Url := ⟨6, true⟩
